@@ -5,7 +5,7 @@ VARIABLES l, viol
 ToCred(j) == [kind |-> j.kind, var |-> j.var, user |-> j.user, fs |-> SeqToSet(j.fs)]
 ToProbe(j) == [op |-> j.op, cred |-> ToCred(j.cred), target |-> j.target, method |-> j.method, origin |-> j.origin,
                webui |-> SeqToSet(j.webui)]
-ToOut(j) == [effects |-> SeqToSet(j.effects), identity |-> j.identity, panic |-> j.panic, class |-> j.class, cookieUser |-> j.cookieUser]
+ToOut(j) == [effects |-> SeqToSet(j.effects), identity |-> j.identity, panic |-> j.panic, class |-> j.class, cookieUser |-> j.cookieUser, signedSubject |-> j.signedSubject]
 TInit == l = 1 /\ viol = {} /\ req = [none |-> TRUE] /\ out = Pending
 TNext == /\ l <= Len(TraceLog)
          /\ LET e == TraceLog[l]
